@@ -119,11 +119,29 @@ def adaptive_vectors(run, max_len=6, cap=48):
   return out
 
 
-def pool_map(fn, items, procs=None, chunksize=4):
+def pool_map(fn, items, procs=None, chunksize=4, deadline=None):
+  """imap_unordered over a fork pool.  With `deadline` (a time.time() value) the iteration stops when the deadline
+  passes even if no worker delivers anything any more (a tree on which conversions have become pathologically slow
+  must end in a truncated report, not in a hung check); the pool is terminated on exit."""
+  import time as _time
   procs = procs or min(16, os.cpu_count() or 4)
   ctx = mp.get_context('fork')
   with ctx.Pool(procs) as pool:
-    for r in pool.imap_unordered(fn, items, chunksize=chunksize):
+    # (only the unchunked iterator has next(timeout))
+    it = pool.imap_unordered(fn, items, chunksize=chunksize if deadline is None else 1)
+    while True:
+      try:
+        if deadline is None:
+          r = next(it)
+        else:
+          left = deadline - _time.time()
+          if left <= 0:
+            return
+          r = it.next(timeout=left)
+      except StopIteration:
+        return
+      except mp.TimeoutError:
+        return
       yield r
 
 
